@@ -76,12 +76,13 @@ package mvs
 // project's configuration, carrying that requirement's path and version (two names for one project
 // are two edges - their versions may differ, and the maximum must win).
 //@ func (*mvs.Resolver).resolveProject variant edges
+//@   uses slices.Sorted variant counted
 //@   requires r != nil
 //@   modifies heap, smap
 //@   callsite LoadOrStore: assert publishes-a-summary: $2.(*mvs.mvsProject) != nil
-//@   callsite LoadOrStore: assert publishes-its-edges: arr($2.(*mvs.mvsProject).Requirements) == arr(reqs) && len($2.(*mvs.mvsProject).Requirements) == len(reqs)
+//@   callsite LoadOrStore: assert publishes-its-edges: arr($2.(*mvs.mvsProject).Requirements) == arr(reqs) && len($2.(*mvs.mvsProject).Requirements) == len(reqs) && len(reqs) == sorted_len
 //@   callsite LoadOrStore: assert publishes-its-version: $2.(*mvs.mvsProject).Version.Path == p.Path && $2.(*mvs.mvsProject).Version.Version == p.Version
-//@   loop over slices.Sorted(): invariant one-edge-per-name: len(reqs) == rangeindex + 1 && config != nil
+//@   loop over slices.Sorted(): invariant one-edge-per-name: len(reqs) == rangeindex + 1 && config != nil && rangeindex + 1 <= sorted_len
 //@   loop over slices.Sorted(): step edge-is-the-requirement: when true ensures len(reqs) == old(len(reqs)) + 1 && (has(config.Requirements, name) ==> (reqs[old(len(reqs))].Path == config.Requirements[name].Path && reqs[old(len(reqs))].Version == config.Requirements[name].Version))
 
 // ---------------------------------------------------------------- C11: Upgrade / Previous
